@@ -89,7 +89,8 @@ func (f *fieldDefined) EnterField(ref int) {
 		f.ValidateInterfaceOrObjectTypeField(ref, f.EnclosingTypeDefinition)
 	default:
 		fieldName := f.operation.FieldNameBytes(ref)
-		typeName := f.operation.NodeNameBytes(f.EnclosingTypeDefinition)
+		// the enclosing type definition is a node of the schema document, not of the operation
+		typeName := f.definition.NodeNameBytes(f.EnclosingTypeDefinition)
 		f.StopWithInternalErr(fmt.Errorf("astvalidation/fieldDefined/EnterField: field: %s selection on type: %s unhandled", fieldName, typeName))
 	}
 }
